@@ -358,17 +358,24 @@ type rateRec struct {
 	mu      sync.Mutex
 	start   time.Time
 	total   int64
-	samples [][]int64 // [ms, cumulative bytes]
+	samples [][]int64 // [ms, cumulative bytes, anchor]: anchor = 1 for a moment at which nothing of this proxy was in flight
+}
+
+// mark: no connection of this proxy is open (everything written was delivered or dropped): windows are judged from here
+func (r *rateRec) mark() {
+	r.mu.Lock()
+	r.samples = append(r.samples, []int64{time.Since(r.start).Milliseconds(), r.total, 1})
+	r.mu.Unlock()
 }
 
 func (r *rateRec) add(n int) {
 	r.mu.Lock()
 	ms := time.Since(r.start).Milliseconds()
 	r.total += int64(n)
-	if k := len(r.samples); k > 0 && ms-r.samples[k-1][0] < 100 {
+	if k := len(r.samples); k > 0 && r.samples[k-1][2] == 0 && ms-r.samples[k-1][0] < 100 {
 		r.samples[k-1][1] = r.total
 	} else {
-		r.samples = append(r.samples, []int64{ms, r.total})
+		r.samples = append(r.samples, []int64{ms, r.total, 0})
 	}
 	r.mu.Unlock()
 }
@@ -692,6 +699,7 @@ func (r *tunnelRun) one(cfgNo int, cfg tnCfg, conns int) {
 				b.plan = func(*backendConn) tnPlan { return back }
 				nBefore := len(b.conns)
 				b.mu.Unlock()
+				b.rec.mark()
 				r.runUser(cfgNo, cfg, userAddr[proxy], p, b, nBefore)
 			}
 			if proxy == 1 {
@@ -706,6 +714,7 @@ func (r *tunnelRun) one(cfgNo int, cfg tnCfg, conns int) {
 				b.plan = func(*backendConn) tnPlan { return back }
 				nBefore := len(b.conns)
 				b.mu.Unlock()
+				b.rec.mark()
 				var cg sync.WaitGroup
 				for k := 0; k < 4; k++ {
 					cg.Add(1)
